@@ -8,6 +8,7 @@
 //	3 k    k=2 Reply, 3 result (success/error alternating on p), 4 Write
 //	4 c    DatagramForMsgCounter(c)
 //	5 k..  overlapping calls of kinds k.. (as for op 3), one goroutine each, released together
+//	6 p    Notify with payload id p, looked up by its counter from inside the connection writer
 //
 // obs encoding (print_obs): 0 c k p = datagram written; 1 c = returned counter; 2 p = found; 3 = not found.
 package main
@@ -28,14 +29,19 @@ import (
 )
 
 type writer struct {
-	mu   sync.Mutex
-	msgs [][]byte
+	mu    sync.Mutex
+	msgs  [][]byte
+	probe func(msg []byte) // called while the connection is being handed a datagram (op 6)
 }
 
 func (w *writer) WriteShipMessageWithPayload(msg []byte) {
 	w.mu.Lock()
-	defer w.mu.Unlock()
+	p := w.probe
 	w.msgs = append(w.msgs, append([]byte(nil), msg...))
+	w.mu.Unlock()
+	if p != nil {
+		p(msg)
+	}
 }
 
 func (w *writer) take() [][]byte {
@@ -284,6 +290,33 @@ func (m *impl) Exec(op hx.Zs) []hx.Zs {
 		}
 	case 3:
 		m.other(op[1])
+	case 6:
+		// Notify whose datagram is looked up by its counter from inside the connection writer, i.e. while
+		// Notify has not returned yet (a fast peer's error result is processed on the reader goroutine)
+		var probed []hx.Zs
+		m.w.mu.Lock()
+		m.w.probe = func(msg []byte) {
+			var d model.Datagram
+			if json.Unmarshal(msg, &d) != nil || d.Datagram.Header.MsgCounter == nil {
+				probed = append(probed, hx.Zs{97})
+				return
+			}
+			dg, err := m.s.DatagramForMsgCounter(*d.Datagram.Header.MsgCounter)
+			if err != nil {
+				probed = append(probed, hx.Zs{3})
+			} else {
+				probed = append(probed, hx.Zs{2, payloadID(dg)})
+			}
+		}
+		m.w.mu.Unlock()
+		ctr, _ := m.s.Notify(localAddr, featAddr(1), notifyCmd(op[1]))
+		m.w.mu.Lock()
+		m.w.probe = nil
+		m.w.mu.Unlock()
+		if ctr != nil {
+			ret = append(ret, hx.Zs{1, int64(*ctr)})
+		}
+		return append(append(m.written(), ret...), probed...)
 	case 5:
 		// overlapping calls: one goroutine per kind, released together; the written datagrams are
 		// sorted by counter and paired with the kinds in the order given when the multiset of kinds
@@ -357,7 +390,11 @@ func gen(r *hx.Rng, tier string, i int) []hx.Zs {
 	notify := func() {
 		c := take()
 		notifCtrs = append(notifCtrs, c)
-		h = append(h, hx.Zs{2, int64(1000 + r.Intn(5000))})
+		code := int64(2)
+		if r.Chance(1, 5) {
+			code = 6 // looked up from inside the connection writer
+		}
+		h = append(h, hx.Zs{code, int64(1000 + r.Intn(5000))})
 		_ = c
 	}
 	lookup := func() {
@@ -544,7 +581,7 @@ func main() {
 		Property: "C13",
 		Clauses: map[int64]string{1: "counter-duplicated", 2: "counter-not-increasing", 3: "withheld-without-unanswered-identical-request",
 			4: "wrong-datagram-or-return", 5: "lru-get-refreshes-recency", 6: "retrieved-wrong-datagram", 98: "unparseable-observation", 99: "unparseable-operation"},
-		OpNames: map[int64]string{0: "request", 1: "response", 2: "notify", 3: "reply/result/write", 4: "lookup", 5: "burst (overlapping calls)"},
+		OpNames: map[int64]string{0: "request", 1: "response", 2: "notify", 3: "reply/result/write", 4: "lookup", 5: "burst (overlapping calls)", 6: "notify probed while written"},
 		NewImpl: newImpl,
 		Gen:     gen,
 		Count:   map[string]int{"quick": 400, "thorough": 20000},
